@@ -9,6 +9,8 @@ pub mod h_json;
 pub mod h_text;
 pub mod h_containers;
 pub mod h_value;
+#[cfg(not(kani))]
+pub mod h_msg;
 
 pub type Body = fn();
 /// harness name -> body (used by the native replay binary)
@@ -20,6 +22,8 @@ pub fn registry() -> Vec<(&'static str, Body)> {
     v.extend(h_text::registry());
     v.extend(h_containers::registry());
     v.extend(h_value::registry());
+    #[cfg(not(kani))]
+    v.extend(h_msg::registry());
     v
 }
 
